@@ -274,22 +274,23 @@ def conformance_cases(ctx, prop, fmt, rows):
     # and a consumer that implements structform.Visitor only (texts reach it through the library's adapter)
     bad = [r["doc"] for r in rows if r["class"] != "complete"] + PRELUDE_BAD[fmt]
     good = [r for r in rows if r["class"] == "complete"]
+    k1, k2, k3 = (4, 6, 3) if ctx.quick else (16, 24, 12)      # (the thorough tier has ~30 times the documents: thinner strides)
     for n, r in enumerate(good):
-        if n % 4 == 0:
-            pre = [bad[(7 * n) % len(bad)], PRELUDE_BAD[fmt][(n // 4) % len(PRELUDE_BAD[fmt])]]
-            e = ("parse", "parsestr", "reader")[(n // 4) % 3]
+        if n % k1 == 0:
+            pre = [bad[(7 * n) % len(bad)], PRELUDE_BAD[fmt][(n // k1) % len(PRELUDE_BAD[fmt])]]
+            e = ("parse", "parsestr", "reader")[(n // k1) % 3]
             cases.append(case(prop, "parse", fmt, doc=r["doc"], entry=e, sub=dict(prelude=pre), origin="after refused one-shot parses of other documents"))
-        if n % 6 == 1:
-            e = ("parse", "write", "decbytes")[(n // 6) % 3]
+        if n % k2 == 1:
+            e = ("parse", "write", "decbytes")[(n // k2) % 3]
             cases.append(case(prop, "parse", fmt, doc=r["doc"], entry=e, sub=dict(plainvis=True), origin="consumer implements Visitor only",
                               **sched_variants(ctx, r["doc"], e, rnd)))
     # every proper prefix of a valid document (the input ends there): whatever the reference automaton says about the
     # prefix - as a rule: incomplete, to be refused by every entry point that knows where the input ends
     for n, r in enumerate(good):
         d = r["doc"]
-        if n % 3 == 0 and 2 <= len(d) <= 28:
+        if n % k3 == 0 and 2 <= len(d) <= 28:
             for cut in range(1, len(d)):
-                e = ("parse", "reader", "decbytes", "write", "decreader", "parsestr")[(n // 3 + cut) % 6]
+                e = ("parse", "reader", "decbytes", "write", "decreader", "parsestr")[(n // k3 + cut) % 6]
                 kw = sched_variants(ctx, d[:cut], e, rnd)
                 cases.append(case(prop, "parse", fmt, doc=d[:cut], entry=e, origin="prefix of a valid document", **kw))
     for n, doc in enumerate(deep_docs(fmt)):
